@@ -183,3 +183,87 @@ def return_aggs(body):
             if "lhs" in st and st["lhs"]["l"] == 0 and not st["lhs"].get("pj"):
                 out.append((bi, si, st))
     return out
+
+
+INTERIOR_MUT = re.compile(r"Atomic|Mutex|RwLock|Cell|Guard|watch::|Sender|Receiver|DashMap|SkipMap|ArcSwap|OnceLock|Notify")
+
+
+def fields_read(body):
+    """set of (adt, field) read anywhere in the body (operands, refs, discriminants, call args)"""
+    out = set()
+
+    def op(o):
+        if o and "p" in o:
+            for (adt, f, _v) in core.place_fields(o["p"]):
+                out.add((strip_generics(adt), f))
+    for blk in body.blocks:
+        if blk.get("cleanup"):
+            continue
+        for st in blk["st"]:
+            rv = st.get("rv")
+            if not rv:
+                continue
+            for k in ("a", "b"):
+                if k in rv:
+                    op(rv[k])
+            if "pl" in rv:
+                for (adt, f, _v) in core.place_fields(rv["pl"]):
+                    out.add((strip_generics(adt), f))
+            for o in rv.get("ops", []):
+                op(o)
+        t = blk["t"]
+        if t["k"] == "call":
+            for a in t["args"]:
+                op(a)
+        elif t["k"] == "switch":
+            op(t["d"])
+    return out
+
+
+def field_mutation_sites(F, adt_suffix, field):
+    """places in the workspace where (adt, field) is assigned or mutably borrowed
+    -> [(root fn id, body, block)]"""
+    out = []
+    for bid, b in F.bodies.items():
+        for bi, blk in enumerate(b.blocks):
+            if blk.get("cleanup"):
+                continue
+            for st in blk["st"]:
+                hit = False
+                if "lhs" in st:
+                    pf = core.place_fields(st["lhs"])
+                    if pf and pf[-1][1] == field and strip_generics(pf[-1][0]).endswith(adt_suffix):
+                        hit = True
+                    rv = st.get("rv")
+                    if rv and rv["k"] in ("ref", "rawptr") and rv.get("mut", True):
+                        pf = core.place_fields(rv["pl"])
+                        if any(f == field and strip_generics(a).endswith(adt_suffix) for (a, f, _v) in pf):
+                            hit = True
+                if hit:
+                    out.append((F.root_of[bid], b, bi))
+            t = blk["t"]
+            if t["k"] == "call":
+                pf = core.place_fields(t["dest"])
+                if pf and pf[-1][1] == field and strip_generics(pf[-1][0]).endswith(adt_suffix):
+                    out.append((F.root_of[bid], b, bi))
+    return out
+
+
+def field_type(F, adt_suffix, field):
+    for p, a in F.adts.items():
+        if strip_generics(p).endswith(adt_suffix):
+            for v in a["variants"]:
+                for (n, t) in v["fields"]:
+                    if n == field:
+                        return t
+    return None
+
+
+def closure_functions(F, root, depth=5):
+    """root fn ids reachable from root (including itself) within depth"""
+    reach = F.reach_calls(root, depth)
+    out = {F.root_of.get(root, root)}
+    for k in reach:
+        if k in F.bodies:
+            out.add(F.root_of[k])
+    return out
